@@ -234,7 +234,7 @@ func execC09(c *child.Ctx, k pipeCase, cj []byte, traces, pairs map[uint64]struc
 			ret = core.HandleMessagesUntilEOF(fixedStart, rd)
 			close(returned)
 		}()
-		waitOrHang(returned, caseWatchdog, "HandleMessagesUntilEOF did not return after the source was exhausted")
+		waitOrHang(returned, caseWatchdog+time.Duration((len(k.SilenceAt)+1)*k.SilenceMs)*time.Millisecond, "HandleMessagesUntilEOF did not return after the source was exhausted")
 		if ret != 0 {
 			c.Violate("wrong-return", fmt.Sprintf("HandleMessagesUntilEOF returned %d for source %d", ret, si), cj)
 		}
